@@ -236,20 +236,30 @@ static void load_files(const char *dir) {
   dir_free(names, n);
 }
 
+static char src_dir[600];
+
+/* unaltered files are hard links to the pristine copy: the library never writes an existing
+   table / log / MANIFEST in place when reuse_logs is off (it only creates, renames and unlinks) */
 static void materialise(const char *dir, int which, const uint8_t *alt, size_t altlen) {
   int i;
   vh_rm_rf(dir);
   if (mkdir(dir, 0755) != 0) vh_fatal("mkdir %s", dir);
   for (i = 0; i < nfiles; i++) {
-    char path[700];
+    char path[700], from[700];
     int fd;
-    const uint8_t *d = i == which ? alt : files[i].data;
-    size_t n = i == which ? altlen : files[i].len;
     snprintf(path, sizeof(path), "%s/%s", dir, files[i].name);
-    fd = open(path, O_WRONLY | O_CREAT | O_TRUNC, 0644);
-    if (fd < 0) vh_fatal("open %s", path);
-    if (n && write(fd, d, n) != (ssize_t)n) vh_fatal("write %s", path);
-    close(fd);
+    if (i != which) {
+      snprintf(from, sizeof(from), "%s/%s", src_dir, files[i].name);
+      if (link(from, path) == 0) continue;
+    }
+    {
+      const uint8_t *d = i == which ? alt : files[i].data;
+      size_t n = i == which ? altlen : files[i].len;
+      fd = open(path, O_WRONLY | O_CREAT | O_TRUNC, 0644);
+      if (fd < 0) vh_fatal("open %s", path);
+      if (n && write(fd, d, n) != (ssize_t)n) vh_fatal("write %s", path);
+      close(fd);
+    }
   }
 }
 
@@ -433,6 +443,7 @@ int main(int argc, char **argv) {
   cfg.reuse_logs = 0;
   snprintf(cur_case, sizeof(cur_case), "[generation of database %d]", g_db);
   generate_db(src);
+  snprintf(src_dir, sizeof(src_dir), "%s", src);
   load_files(src);
   vh_count("databases", 1);
   /* sanity: the unaltered copy is fully correct */
@@ -470,7 +481,9 @@ int main(int argc, char **argv) {
     }
     for (off = 0; off < f->len; off++) {
       int rg = is_table ? f->region[off] : RG_OTHER;
-      int is_dense = exhaustive || (is_table ? rg != RG_DATA : dense[off]);
+      int is_dense = exhaustive || (is_table ? (rg != RG_DATA && rg != RG_INDEX && rg != RG_FILTER) : dense[off]);
+      if (!is_dense && is_table && (rg == RG_INDEX || rg == RG_FILTER) && stride >= 8 &&
+          (vh_hash64(&off, sizeof(off), (uint64_t)fi + 7) % (uint64_t)(stride / 8)) == 0) is_dense = 1;
       int a, only_sector = 0;
       if (!is_dense && (vh_hash64(&off, sizeof(off), (uint64_t)fi) % (uint64_t)stride) != 0) {
         if (off % 512 == 0) only_sector = 1; else continue;
